@@ -334,7 +334,9 @@ def bounded_rerun_propagation(ctx):
 
 
 def run(ctx):
-    ctx.level = "proof"
+    # the function-level clauses are discharged deductively; the step from them to the property over whole HISTORIES of
+    # submissions (and the workflow-level parts) is bounded / an argument on paper: not claimed as a proof
+    ctx.level = "other"
     ctx.explanation = (
         "load_result is verified with loop invariants over an arbitrary list of caches (returns the first complete result "
         "in list order; None only if no listed cache holds a complete result); Job.run/run_async execute the task iff rerun "
